@@ -155,17 +155,15 @@ def LState.peek (s : LState) : Except LErr (Option Token) × LState :=
     | (some (.ok (.tok t)), s') => (.ok (some t), { s' with peeked := some t })
     | (some (.ok _), s') => (.error .peekValue, { s' with hardBreak := true })
 
-/-- `skip_bytes(n)`: what is there is consumed, a short source is an error -/
+/-- `skip_bytes(n)` = `io::copy(take(n), sink)`: what is there is consumed; a short source is NOT an
+error, and `position` advances by `n` all the same -/
 def Dec.skip (d : Dec) (n : Nat) : Except RErr Dec :=
-  match takeN n d.rest with
-  | some (_, r) => .ok { d with rest := r, pos := d.pos + n }
-  | none => .error .eof
+  .ok { d with rest := d.rest.drop n, pos := d.pos + n }
 
-/-- `read_to_vec(n)` -/
+/-- `read_to_vec(n)` = `io::copy(take(n), vec)`: the bytes that are there (at most `n`), never an error at
+the end of the source; `position` advances by `n` -/
 def Dec.readToVec (d : Dec) (n : Nat) : Except RErr (Bytes × Dec) :=
-  match takeN n d.rest with
-  | some (v, r) => .ok (v, { d with rest := r, pos := d.pos + n })
-  | none => .error .eof
+  .ok (d.rest.take n, { d with rest := d.rest.drop n, pos := d.pos + n })
 
 /-- `read_u32_to_vec(n)`: `n / 4` numbers, then `n % 4` bytes skipped (what is there) -/
 def Dec.readU32ToVec (d : Dec) (n : Nat) : Except RErr (List Nat × Dec) :=
